@@ -573,3 +573,28 @@ func specPopcount16(x uint16) uint16 {
 
 // specBitIndex: the bit of the bitmap that stands for sequence number s of pair (id, bitmap): s-id-1 modulo 2^16.
 func specBitIndex(id, s uint16) uint16 { return s - id - 1 }
+
+// specXRKind: the Go type of a report block is the one registered for its block type (RFC 3611 section 4);
+// anything else is carried as an UnknownReportBlock.
+func specXRKind(b ReportBlock) bool {
+	switch v := b.(type) {
+	case *LossRLEReportBlock:
+		return v.XRHeader.BlockType == LossRLEReportBlockType
+	case *DuplicateRLEReportBlock:
+		return v.XRHeader.BlockType == DuplicateRLEReportBlockType
+	case *PacketReceiptTimesReportBlock:
+		return v.XRHeader.BlockType == PacketReceiptTimesReportBlockType
+	case *ReceiverReferenceTimeReportBlock:
+		return v.XRHeader.BlockType == ReceiverReferenceTimeReportBlockType
+	case *DLRRReportBlock:
+		return v.XRHeader.BlockType == DLRRReportBlockType
+	case *StatisticsSummaryReportBlock:
+		return v.XRHeader.BlockType == StatisticsSummaryReportBlockType
+	case *VoIPMetricsReportBlock:
+		return v.XRHeader.BlockType == VoIPMetricsReportBlockType
+	case *UnknownReportBlock:
+		return v.XRHeader.BlockType == 0 || v.XRHeader.BlockType > 7
+	default:
+		return false
+	}
+}
